@@ -332,6 +332,7 @@ def dispatch (fuel : Nat) (which : St) (s : Sc) (c : Cls) (p1 p2 : Option Cls) :
       if c == .rbrack then return ← foundArrayEnd s
       throw (errChar s "after array item")
   | .endTop => do
+      if s.hasTrailing then return found s .endTop      -- fix: the deferred end-top is delivered first
       if ← isNewLineM s c then return found s .newLine
       if c == .slash then return ← switchToAnnotation s
       if isCommentStart s c then return ← switchToComment s
@@ -340,7 +341,6 @@ def dispatch (fuel : Nat) (which : St) (s : Sc) (c : Cls) (p1 p2 : Option Cls) :
           if !s.stack.isEmpty then return { s with hasTrailing := true }
           return found s .endTop
         else if s.ann == .none then throw (errChar s "non-space byte after top-level value")
-      if s.hasTrailing then return found s .endTop
       pure s
   | .inString =>
       match c with
